@@ -68,6 +68,7 @@ type binder struct {
 	sc      *scope
 	fnDepth int
 	inCond  int
+	visEndOverride int
 }
 
 func RBind(pr *ParseResult) *BindResult {
@@ -150,6 +151,10 @@ func (b *binder) block(bl *Node, newScope bool) {
 	if bl.Last != nil {
 		end = bl.Last.End
 	}
+	if b.visEndOverride > 0 {
+		end = b.visEndOverride
+		b.visEndOverride = 0
+	}
 	for _, s := range bl.List {
 		b.stat(s, end)
 	}
@@ -184,6 +189,7 @@ func (b *binder) stat(s *Node, blockEnd int) {
 		b.block(s.Body, true)
 	case SRepeat:
 		b.push()
+		b.visEndOverride = s.Last.End // the body's locals stay visible in the until condition
 		b.block(s.Body, false)
 		b.inCond++
 		b.exp(s.A) // the condition sees the body's locals
